@@ -2,5 +2,6 @@ SPECIFICATION Spec
 CONSTANTS
   MaxN = 4
   MoveNotClone = FALSE
+  KeepOnAppend = TRUE
 INVARIANT NoViolation
 CHECK_DEADLOCK FALSE
